@@ -58,7 +58,9 @@ def tasks_sig(loop):
             fr = getattr(c, "cr_frame", None) or getattr(c, "gi_frame", None) or getattr(c, "ag_frame", None)
             if fr is None:
                 break
-            stack.append((getattr(c, "__qualname__", type(c).__name__), fr.f_lasti))
+            # (plus the scalar locals of the frame: a retry counter, a back-off interval - progress that no instruction offset shows)
+            loc = tuple(sorted((n, v if not isinstance(v, float) else round(v, 6)) for n, v in fr.f_locals.items() if isinstance(v, (int, float, bool, type(None))) or (isinstance(v, str) and len(v) < 40)))
+            stack.append((getattr(c, "__qualname__", type(c).__name__), fr.f_lasti, loc))
             c = getattr(c, "cr_await", None) or getattr(c, "gi_yieldfrom", None) or getattr(c, "ag_await", None)
         out.append(tuple(stack))
     return tuple(sorted(out))
